@@ -105,6 +105,17 @@ func (m *certManager) init(hostKey ic.PrivKey) error {
 	if err != nil {
 		return err
 	}
+	// Certificates are a deterministic function of the host key and the time
+	// bucket, so the certificate of the previous bucket can be regenerated
+	// after a restart. A dialer that learned our address during the previous
+	// bucket dials /certhash/<previous>/certhash/<current> and only completes
+	// the connection if we confirm both hashes. Without the previous config a
+	// restarted listener would turn all of those dialers away.
+	prevStart := startTime.Add(-validityMinusTwoSkew)
+	m.currentConfig, err = newCertConfig(hostKey, prevStart, prevStart.Add(certValidity))
+	if err != nil {
+		return err
+	}
 	return m.rollConfig(hostKey)
 }
 
